@@ -130,6 +130,8 @@ type Sim struct {
 	Sig      uint64
 
 	Stats Stats
+	// SiteBits: approximate set of yield sites executed (bit = FNV(site) mod 4096)
+	SiteBits [64]uint64
 
 	Deadlock  bool
 	Capped    bool
@@ -560,6 +562,10 @@ func (s *Sim) step(t *Task, site string, kind uint8, blockedNow bool) {
 	}
 	prevSite := t.curSite
 	t.curSite = site
+	if kind == EvYield {
+		h := HashString(site) & 4095
+		s.SiteBits[h>>6] |= 1 << (h & 63)
+	}
 	s.logEvent(t, kind, site)
 	if blockedNow {
 		s.Stats.BlockedYields++
